@@ -405,3 +405,17 @@ Definition ires_stack (r : ires) : list cell :=
    what push_vars pushed on an empty stack before it returned False *)
 Definition stale (tys : list Z) (line : str) : list cell :=
   match push_vars line tys [] with PVReject s => s | _ => [] end.
+
+(* what the code shows for one rejected line: the prompt, the line, the message *)
+Definition redo_block (q : bool) (p : str) (sl : Z) (b : str) : list ev :=
+  ask q p sl b ++ [EPrint s_redo].
+
+(* a run of the code meets a run of the specification, the operand stack
+   having been [st] before the statement: same texts (up to the way they are
+   cut into terminal_print calls), the specified values on top of [st], first
+   variable's value on top, nothing else *)
+Definition meets (r : ires) (s : sres) (st : list cell) : Prop :=
+  match s with
+  | SDone e v => exists e', r = IDone e' (v ++ st) /\ forall acc, norm_acc e' acc = norm_acc e acc
+  | SExhausted e => exists e', r = IExhausted e' st /\ forall acc, norm_acc e' acc = norm_acc e acc
+  end.
